@@ -336,6 +336,8 @@ structure ItemLay where
   i3 : Bytes := []
   i4 : Bytes := []
   blanks : List Bytes := []   -- blank lines after the entry (each: blanks + newline)
+  szPlus : Bool := false      -- the size field of a uripost / raw entry is written with a leading `+` (`strconv.Atoi` reads it)
+  szZeros : Nat := 0          -- … with this many leading zeros (fixed-width sizes such as `010`: decimal ten)
 deriving DecidableEq, Repr, Inhabited
 
 structure Layout where
@@ -349,13 +351,18 @@ def renderBlanks : List Bytes → Bytes
   | [] => []
   | b :: r => b ++ LF :: renderBlanks r
 
+/-- the size field of a uripost / raw entry as its author may spell it: an optional `+` and any number of leading zeros
+in front of the decimal digits (all of it is what `strconv.Atoi` reads as the same number) -/
+def sizeText (l : ItemLay) (n : Nat) : Bytes :=
+  (if l.szPlus then [43] else []) ++ (List.replicate l.szZeros 48 ++ natToDec n)
+
 /-- the line of an entry, without surrounding blanks -/
 def content (f : Fmt) (it : Item) (l : ItemLay) : Bytes :=
   match it with
   | .hdr k v => LBR :: (l.i1 ++ k ++ l.i2 ++ COLON :: (l.i3 ++ v ++ l.i4 ++ [RBR]))
   | .req uri tag body =>
-    (if f = .uripost then natToDec body.length ++ [SP] else []) ++ uri ++ (if tag.isEmpty then [] else SP :: tag)
-  | .frame tag fr => natToDec fr.length ++ (if tag.isEmpty then [] else SP :: tag)
+    (if f = .uripost then sizeText l body.length ++ [SP] else []) ++ uri ++ (if tag.isEmpty then [] else SP :: tag)
+  | .frame tag fr => sizeText l fr.length ++ (if tag.isEmpty then [] else SP :: tag)
 
 /-- the bytes that follow the entry's line (size-prefixed block) -/
 def payload (f : Fmt) : Item → Bytes
